@@ -74,4 +74,46 @@ theorem walk_eq_preorder (t : Tree α) : walk t = preorder t := by
   rw [walkFrom_eq (size t) [t.children] (by simp [stackSize, size_eq t]), preorder_eq t]
   simp [stackOrder]
 
+mutual
+  theorem preorder_prune (keep : α → Bool) : ∀ t : Tree α, (preorderO (prune keep t)).filter keep = (preorder t).filter keep
+    | .node l cs => by
+      have ih := preorderL_pruneL keep cs
+      simp only [prune]
+      by_cases hk : keep l = true
+      · simp only [hk, Bool.true_or, if_true, preorderO, preorder, List.filter_cons, ih]
+      · have hk' : keep l = false := by simpa using hk
+        simp only [hk', Bool.false_or]
+        by_cases he : (pruneL keep cs).isEmpty = true
+        · simp only [he, Bool.not_true, Bool.false_eq_true, if_false, preorderO, preorder, List.filter_cons, hk']
+          rw [← ih]
+          rw [List.isEmpty_iff] at he
+          simp [he, preorderL]
+        · have he' : (pruneL keep cs).isEmpty = false := by simpa using he
+          simp only [he', Bool.not_false, if_true, preorderO, preorder, List.filter_cons, hk', ih]
+  theorem preorderL_pruneL (keep : α → Bool) : ∀ ts : List (Tree α), (preorderL (pruneL keep ts)).filter keep = (preorderL ts).filter keep
+    | [] => by simp [pruneL, preorderL]
+    | t :: ts => by
+      have h1 := preorder_prune keep t
+      have h2 := preorderL_pruneL keep ts
+      simp only [pruneL]
+      cases hp : prune keep t with
+      | none =>
+        rw [hp] at h1
+        simp only [preorderO, List.filter_nil] at h1
+        simp only [preorderL, List.filter_append, ← h1, List.nil_append, h2]
+      | some t' =>
+        rw [hp] at h1
+        simp only [preorderO] at h1
+        simp only [preorderL, List.filter_append, h1, h2]
+end
+
+/-- **pruning loses no node of interest and keeps their order**: the nodes of interest the cursor walk yields over the shipped
+    (pruned) tree are those it yields over the full syntax tree -/
+theorem walk_pruned (keep : α → Bool) (t t' : Tree α) (h : prune keep t = some t') :
+    (walk t').filter keep = (walk t).filter keep := by
+  rw [walk_eq_preorder, walk_eq_preorder]
+  have := preorder_prune keep t
+  rw [h] at this
+  exact this
+
 end Bw.TreeWalk
